@@ -72,8 +72,16 @@ func drawC09Pair(c *fw.Ctx) *c09pair {
 		}
 		return &c09pair{p, name, Y, X}
 	case "protocol":
-		v := c.S.Draw(6, "proto-variant")
+		v := c.S.Draw(8, "proto-variant")
 		switch v {
+		case 6, 7: // the same refresh / sign over a plain and over a taproot key of the same parties
+			kind := []scen.Kind{scen.KRefresh, scen.KSign}[v-6]
+			Y := scen.DrawScenario(c, scen.ScenarioOpts{OnlyMulti: true, MaxN: 4, Kinds: []scen.Kind{kind}})
+			X := cloneScn(Y)
+			X.Proto = scen.FROST + scen.FROSTTaproot - Y.Proto
+			X.Mat = scen.PrepMaterial(c, X.Proto, X.IDs, X.T, "prep-x")
+			X.Y, X.HasY = X.Mat.PublicKey(X.IDs[0]), true
+			return &c09pair{p, "frost-" + kind.String() + "-vs-taproot-" + kind.String(), Y, X}
 		case 0: // frost keygen vs frost-taproot keygen
 			Y := scen.DrawScenario(c, scen.ScenarioOpts{OnlyMulti: true, MaxN: 4, Kinds: []scen.Kind{scen.KKeygen}})
 			X := cloneScn(Y)
